@@ -19,6 +19,8 @@ PROVED (all tables, all grids, every monotone "square root" `sq`):
     rows it uses, at the seed itself whenever the seed lies in that range, with `A₀` inside the range of the
     logical rates; the start does not depend on the row order; the call fails exactly when the window holds no
     row with a finite rate.
+  * the whole selection (`calculate_thresholds` up to `curve_fit`) does not depend on the order of the rows of the
+    results table (`thresholds_rows_order_irrelevant`).
   * overrides: a skipped parameter set has no row, every other one has exactly one; a replaced one reports
     exactly the given numbers and is not fitted; `apply_overrides` writes class-NAME keys while
     `calculate_thresholds` looks up LABEL keys, so a spec given to `Analysis(overrides=…)` never changes the
@@ -28,7 +30,7 @@ NOT TRUE / `_partial` (witnesses below): the `autotruncate` window need not cont
 (`autotruncate_window_can_miss_every_row`: the call then dies with ValueError), so clause (d) "the window holds
 the rows the fit needs" is proved for the default window only.
 -/
-import PanqecVerif.Proofs.AnalysisWindowMore
+import PanqecVerif.Proofs.AnalysisWindowOrder
 
 namespace Panqec.C16Window
 
@@ -336,6 +338,29 @@ theorem skipping_everything_fails {st : OvState} {rs : List ResRow} (sector : Na
     (h : ∀ t ∈ paramSets rs, st.skips.contains t = true) : calcThresholds st sector mode rs = .error .nothingFitted :=
   calcThresholds_nothing_left sector mode h
 
+/-! ## order of the rows of the results table -/
+
+/-- ORDER INDEPENDENCE of the whole row selection (`calculate_thresholds` up to the call of `curve_fit`, any
+    override state, default or `autotruncate` windows with a grid rule that does not look at the row order — the
+    exact grid and numpy's both depend on the smallest and largest rate only): permuting the rows of the results
+    table changes neither the parameter sets reported, nor any window limit (`p_th_nearest`, `p_th_sd`, `p_left`,
+    `p_right`), nor the number of rows and the start values `p0[0]`, `p0[2]` handed to the first fit, nor the
+    replacement values, nor the error the call ends with.  (No side condition: inside one parameter set all rows
+    carry the same 'code', so `get_p_th_nearest` is the smallest rate.) -/
+theorem thresholds_rows_order_irrelevant (st : OvState) (sector : Nat) {mode : WindowMode} (hmode : mode.OrderFree)
+    {rs₁ rs₂ : List ResRow} (h : rs₁.Perm rs₂) : calcReport st sector mode rs₁ = calcReport st sector mode rs₂ :=
+  calcReport_perm st sector hmode h
+
+/-- the default mode and `autotruncate` on the exact grid satisfy the hypothesis of the previous theorem -/
+theorem exact_grid_modes_order_free (sq : Rat → Rat) (res : Rat) :
+    WindowMode.default.OrderFree ∧
+    (WindowMode.auto sq fun rows pn => sdExactGrid res rows (some pn)).OrderFree := by
+  refine ⟨trivial, ?_⟩
+  intro a b pn h
+  show sdExactGrid res a (some pn) = sdExactGrid res b (some pn)
+  unfold sdExactGrid sdGridLen
+  rw [minList_perm (h.map _), maxList_perm (h.map _)]
+
 /-! ## `p_th_fss_se` -/
 
 /-- the radicand of `p_th_fss_se` (population variance of the bootstrap column) is non-negative, does not depend
@@ -418,6 +443,15 @@ example :
       some [(0, 11, 12), (0, 11, 13)] ∧
     (calcThresholds (applyOverrides twoSets demoSpec) 0 .default twoSets).toOption.map (·.all ThreshEntry.isFitted) =
       some true := by
+  decide +kernel
+
+set_option maxRecDepth 100000 in
+/-- the reports of the two parameter sets, and the same reports from the reversed table -/
+example :
+    (calcReport {} 0 .default twoSets).toOption =
+      some [⟨(0, 11, 12), 1/10, 1/10, 1/10, 3/10, some (6, 1/10, 3/16), none⟩,
+            ⟨(0, 11, 13), 1/10, 1/10, 1/10, 3/10, some (6, 1/10, 3/16), none⟩] ∧
+    (calcReport {} 0 .default twoSets.reverse).toOption = (calcReport {} 0 .default twoSets).toOption := by
   decide +kernel
 
 set_option maxRecDepth 100000 in
